@@ -24,7 +24,7 @@ LEVEL = META['level']
 RULE = ('a case = one value round-tripped, or one (message, tail, chunking) fed to the streaming machine, or one socket session; distinct by the produced bytes + chunking; '
         'non-trivial = the deciding comparison was evaluated (payload compared / position compared)')
 ASSUMPTIONS = ['streaming machine judged only for the types it implements (, $ # ~); list/dict/bool/float messages are counted as unsupported']
-REQUIRED = ['roundtrip:int', 'roundtrip:float', 'roundtrip:bool', 'roundtrip:none', 'roundtrip:bytes', 'roundtrip:str', 'roundtrip:list', 'roundtrip:dict',
+REQUIRED = ['from:nothing-yet-reported', 'roundtrip:int', 'roundtrip:float', 'roundtrip:bool', 'roundtrip:none', 'roundtrip:bytes', 'roundtrip:str', 'roundtrip:list', 'roundtrip:dict',
             'roundtrip:depth>=4', 'roundtrip:with-tail', 'machine:runs', 'machine:two-way-splits', 'machine:bytewise', 'machine:tail-untouched',
             'machine:prefix-yields-nothing', 'machine:back-to-back', 'socket:sessions', 'socket:messages', 'from:two-way-splits', 'from:bytewise', 'from:payload-contains-separator', 'roundtrip:payload-looks-like-framing', 'roundtrip:large', 'roundtrip:shared-container-object']
 TIMEOUT = {'quick': 300, 'thorough': 1800}
@@ -307,18 +307,33 @@ class Mon:
                           {'stream': stream[:3000], 'chunks': [len(c) for c in chunks], 'ignore': bool(ignore)})
 
 
-    def from_case(self, values, stream, chunks, ignore, label):
+    def from_case(self, values, stream, chunks, ignore, label, gaps=False):
         """tnet_from with exactly these chunks as successive receives (the module's network.recv replaced by a feeder): the
-        segmentation is then exact, which a socketpair cannot guarantee."""
+        segmentation is then exact, which a socketpair cannot guarantee.  With gaps, the consumer polls (timeout=0) and every chunk
+        is preceded by one or two receives that time out: tnet_from then reports "nothing yet" (None) in the middle of a message
+        and must carry on with it afterwards.  A timeout None is told from a null message by the feeder's own record."""
         import types
         ctx = self.ctx
         feed = list(chunks)
+        if gaps:
+            feed = [x for c in chunks for x in ([None] * (1 + len(c) % 2) + [c])]
+            label += '+receive-timeouts'
+        flag = {'timeout': False}
+
+        def recv(conn, timeout=None, **kw):
+            x = feed.pop(0) if feed else b''
+            flag['timeout'] = x is None
+            return x
         saved = self.tnet.network
-        self.tnet.network = types.SimpleNamespace(recv=lambda conn, timeout=None, **kw: feed.pop(0) if feed else b'')
+        self.tnet.network = types.SimpleNamespace(recv=recv)
         got = []
-        wit = {'stream': stream[:3000], 'chunks': [len(c) for c in chunks][:100], 'ignore': bool(ignore), 'chunking': label, 'tnet_from': True}
+        wit = {'stream': stream[:3000], 'chunks': [len(c) for c in chunks][:100], 'ignore': bool(ignore), 'chunking': label, 'tnet_from': True, 'gaps': gaps}
         try:
-            for msg in self.tnet.tnet_from(None, ('feeder', 0), timeout=5.0, ignore=ignore):
+            for msg in self.tnet.tnet_from(None, ('feeder', 0), timeout=0 if gaps else 5.0, ignore=ignore):
+                if msg is None and flag['timeout']:
+                    flag['timeout'] = False
+                    ctx.count('from:nothing-yet-reported')
+                    continue
                 got.append(msg)
                 if len(got) > len(values) + 3:
                     break
@@ -342,6 +357,7 @@ class Mon:
         self.from_case(values, stream, [stream], ignore, 'single-chunk')
         for cut in range(1, len(stream)):
             self.from_case(values, stream, [stream[:cut], stream[cut:]], ignore, 'two-way-splits')
+            self.from_case(values, stream, [stream[:cut], stream[cut:]], ignore, 'two-way-splits', gaps=True)
         self.from_case(values, stream, [stream[j:j + 1] for j in range(len(stream))], ignore, 'bytewise')
 
 
@@ -444,7 +460,7 @@ def replay(ctx, witness):
         for n in witness['chunks']:
             chunks.append(stream[pos:pos + n])
             pos += n
-        mon.from_case(values, stream, chunks, ignore, witness['chunking'])
+        mon.from_case(values, stream, chunks, ignore, witness['chunking'].replace('+receive-timeouts', ''), gaps=bool(witness.get('gaps')))
     elif 'chunking' in witness:
         enc, tail = witness['message'], witness['tail']
         v, _ = mon.tns.parse(enc)
